@@ -97,6 +97,11 @@ func (s *sandbox) resetRoot(state string) error {
 		ioutil.WriteFile(filepath.Join(s.root, "...", ), nil, 0644)
 		ioutil.WriteFile(filepath.Join(s.root, ".cfg", "app.ini"), []byte("ini"), 0644)
 		ioutil.WriteFile(filepath.Join(s.root, "sub", ".hidden"), []byte("hidden"), 0644)
+		// names with code points that are valid UTF-8 but not XML characters
+		// (an href writer that stops escaping them lets the XML layer alter them)
+		ioutil.WriteFile(filepath.Join(s.root, "a\uFFFEb.txt"), []byte("fffe"), 0644)
+		ioutil.WriteFile(filepath.Join(s.root, "sub", "\uFFFF"), []byte("ffff"), 0644)
+		ioutil.WriteFile(filepath.Join(s.root, "sub", "caf\u00e9 \u4e2d\u6587 %41+~'()"), []byte("mixed"), 0644)
 		ioutil.WriteFile(filepath.Join(s.root, "sub", "..."+"", "x"), []byte("x"), 0644)
 	}
 	return nil
